@@ -503,6 +503,7 @@ def check_property(pid, tier, seed, replay=None):
             raise MachineryError(f"driver rejected a request: {r.req[:300]} => {r.impl[:200]} :: {r.detail}")
 
     reported_keys = set()
+    unreproduced = []
 
     def report(idx, kind, suffix=""):
         case = cases[idx]
@@ -511,6 +512,18 @@ def check_property(pid, tier, seed, replay=None):
         except MachineryError:
             small = case
         rs = run_pipeline(flatten([small]), "final", wdir)[1:]
+        if kind in ("O", "K", "BAD") and not getattr(prop, "SCHEDULE_DEPENDENT", False) and case_status(rs)[0] is None:
+            # the failure seen in the main run does not show when the case is run again on its own. For a property about
+            # a deterministic function of the inputs a real violation reproduces; re-run the unshrunk case twice more,
+            # each time in fresh executor processes, and report only what fails again (DESIGN 14.5). Properties that
+            # quantify over schedules (C05, C06, C10) and C15 (F9: answers that vary from run to run) never take this path.
+            again = [case_status(run_pipeline(flatten([case]), "final", wdir)[1:])[0] for _ in range(2)]
+            if not any(again):
+                unreproduced.append({"case_index": idx, "kind": kind, "first_request": case[0][:200] if case else ""})
+                log(f"UNREPRODUCED: property={pid} a {kind}-failure of case {idx} in the main run did not recur in 3 isolated re-runs; not reported")
+                return
+            rs = run_pipeline(flatten([case]), "final", wdir)[1:]
+            small = case
         key = prop.shape_key(small, rs) if hasattr(prop, "shape_key") else None
         if key in reported_keys:
             return
@@ -540,6 +553,19 @@ def check_property(pid, tier, seed, replay=None):
     for idx, kind, at in pending:
         if len(violations) >= 5: break
         report(idx, kind)
+    if not violations and k_breaks and not proof_broken and not getattr(prop, "SCHEDULE_DEPENDENT", False):
+        # disagreements that do not recur when their case is run again on its own are not counted (see report())
+        confirmed = []
+        for kb in k_breaks:
+            if len(confirmed) >= 1: break
+            if any(case_status(run_pipeline(flatten([cases[kb[0]]]), "final", wdir)[1:])[0] for _ in range(2)):
+                confirmed.append(kb)
+            else:
+                unreproduced.append({"case_index": kb[0], "kind": "K", "first_request": cases[kb[0]][0][:200] if cases[kb[0]] else ""})
+                log(f"UNREPRODUCED: property={pid} a K-disagreement of case {kb[0]} in the main run did not recur in 2 isolated re-runs; not reported")
+            if len(unreproduced) >= 4: break
+        if not confirmed and len(unreproduced) < 4:
+            k_breaks = []
     if not violations and (k_breaks or proof_broken):
         # a correspondence or a proof obligation broke but no oracle failure seen yet: search (DESIGN 4.2)
         found = False
@@ -587,7 +613,7 @@ def check_property(pid, tier, seed, replay=None):
             "branch_flags_hit": flagcount,
             "traces_validated_against_impl": flagcount.get("trace-validated", 0) + flagcount.get("plan-orderplan", 0) + flagcount.get("jittered-commands", 0),
             "correspondence_disagreements": len(k_breaks), "oracle_failures": len(o_breaks),
-            "known_findings_seen": known_printed,
+            "known_findings_seen": known_printed, "unreproduced_failures": unreproduced,
             "partial_theorems": getattr(prop, "PARTIAL", []),
         },
         "assumptions": prop.ASSUMPTIONS,
